@@ -145,8 +145,44 @@ def library_value(fb, name_tok, exports):
     return e
 
 
-def run_spec(w, spec, order=(0, 1, 2)):
-    exports0 = [("a", Val("A")), ("b", Val("B")), ("c", Val("C"))]
+def length_thresholds(fb, f, depth=3):
+    """the constants that lengths are compared with in `f` and the functions of the crate it calls (a list treated differently from
+    a given size on: `if names.len() > 8 { build a set } else { scan }`): the sizes at which a table has to look again"""
+    out, seen, todo = set(), set(), [(f, 0)]
+    while todo:
+        g, d = todo.pop()
+        if g is None or g.name in seen:
+            continue
+        seen.add(g.name)
+        lens = set()
+        for b, t in g.calls():
+            if mir.callee_matches(t, "Vec::len", "Vec<T, A>::len", "<impl [T]>::len", "HashSet::len", "HashMap::len", "SmallVec::len", "Iterator::count",
+                                  "ExactSizeIterator::len", "ExactSizeIterator>::len") and not t["dest"]["proj"]:
+                lens.add(t["dest"]["local"])
+            if d < depth:
+                c = mir.callee(t) or ""
+                h = fb.by_call(t) or fb.by_path(c)
+                if h is not None and h.name.startswith(("interpreter::interpreter::", "interpreter::library::")) and "eval_expression" not in h.name \
+                        and "apply_procedure" not in h.name and "get_library" not in h.name:
+                    todo.append((h, d + 1))
+        for b, i, st in g.stmts():
+            if st["k"] == "assign" and st["rv"]["k"] == "use":
+                src = mir.op_local(st["rv"]["op"])
+                if src in lens and not st["place"]["proj"]:
+                    lens.add(st["place"]["local"])
+        for b, i, st in g.stmts():
+            if st["k"] == "assign" and st["rv"]["k"] == "binop" and st["rv"]["op"] in ("Lt", "Le", "Gt", "Ge", "Eq", "Ne"):
+                for side, other in (("l", "r"), ("r", "l")):
+                    if mir.op_local(st["rv"][side]) in lens:
+                        c = mir.const_int(st["rv"][other])
+                        if c is not None and 2 <= c <= 40:
+                            out.add(c)
+    return sorted(out)
+
+
+def run_spec(w, spec, order=(0, 1, 2), exports0=None):
+    exports0 = exports0 or [("a", Val("A")), ("b", Val("B")), ("c", Val("C"))]
+    order = order if len(order) == len(exports0) else tuple(range(len(exports0)))
     exports = [exports0[i] for i in order]       # the order in which the library's (hash) table happens to yield its exports
     lib = Val("library-name")
     libtok = library_value(w.fb, lib, exports) or Val("library")
@@ -234,6 +270,32 @@ def rule_algebra(ctx, rules):
         if d["loads"] != 1 or d["in_progress_left"] not in (0, None):
             ctx.report(rules.get("default", rule), "import-set/%s/load" % label, "%s loads the library %d time(s) and leaves %s in-progress mark(s)" % (
                 label, d["loads"], d["in_progress_left"]), where_of(w.f))
+    # identifier lists of the sizes at which the code itself changes what it does (constants it compares a length with), on a
+    # library with enough exports: only / except of exactly c - 1, c, c + 1 names
+    try:
+        sizes = length_thresholds(fb, w.f)
+    except Exception:
+        sizes = []
+    for c in sizes[:4]:
+        for n in (c - 1, c, c + 1):
+            exports0 = [("v%d" % i, Val("V%d" % i)) for i in range(1, n + 3)]
+            names = [e[0] for e in exports0[:n]]
+            for op in ("only", "except"):
+                spec = (op, ("lib",), names)
+                rule = rules.get(op, rules.get("default"))
+                key = "import-set/(%s (lib) %d names of %d)" % (op, n, len(exports0))
+                d = run_spec(w, spec, exports0=exports0)
+                if "stuck" in d:
+                    ctx.undecided(rule, key, "cannot follow eval_import_set (%s)" % d["stuck"], where_of(w.f))
+                    continue
+                decided += 1
+                got = sorted(n_ for n_, _ in d["pairs"]) if d["pairs"] is not None else None
+                want = sorted(n_ for n_, _ in reference(spec, exports0))
+                ctx.inst(rule, key, {"names": got, "list_length_compared_with": c})
+                ctx.oblige(got == want)
+                if got != want:
+                    ctx.report(rule, key, "(%s (lib) <%d names>) on a library of %d exports binds %s, the import-set algebra gives %s (the code "
+                               "compares a length with %d)" % (op, n, len(exports0), got, want, c), where_of(w.f))
     return decided
 
 
